@@ -8,7 +8,7 @@ HEADER = ('From Coq Require Import List Bool Arith.\nImport ListNotations.\n'
 
 SHAPES = {'opt': 'ShOpt', 'imm': 'ShImm', 'ser': 'ShSer', 'ddl': 'ShDdl', 'nonopt': 'ShImm'}
 STMTS = {'fk_on': 'SFkOn', 'cslike': 'SCsLike', 'fk_get': 'SFkGet', 'fk_off': 'SFkOff', 'begin': 'SBegin', 'select': 'SSelect', 'write': 'SWrite'}
-OPS = {'select': 'OSelect', 'load': 'OSelect', 'forupd': 'OForUpd', 'qforupd': 'OForUpd', 'new': 'ONew', 'set': 'ONew', 'del': 'ONew',
+OPS = {'select': 'OSelect', 'load': 'OSelect', 'loadu': 'OSelect', 'forupd': 'OForUpd', 'qforupd': 'OForUpd', 'new': 'ONew', 'set': 'ONew', 'del': 'ONew',
        'flush': 'OFlush', 'rawwrite': 'ORawWrite', 'rawupdate': 'ORawWrite', 'ddlwrite': 'ORawWrite', 'commit': 'OCommit', 'rollback': 'ORollback',
        'dbcommit': 'ODbCommit', 'dbrollback': 'ODbRollback', 'raise': 'ORaise', 'getconn': 'OGetConn'}
 EXC = {'none': 'Ok', 'EDb': '(Err EDb)', 'EDrv': '(Err EDrv)', 'Other:UnexpectedError': '(Err EUnexp)', 'ECommit': '(Err ECommit)', 'ERollback': '(Err ERollback)',
@@ -43,21 +43,50 @@ def coq_event(ev):
     elif kind == 'commit': call = 'KCommit'
     elif kind == 'rollback': call = 'KRollback'
     elif kind == 'close': call = 'KClose'
-    elif kind == 'execute':
+    elif kind in ('execute', 'executemany'):
         if stmt not in STMTS: raise Unmodelled('statement kind %r' % stmt)
-        call = '(KExecute %s)' % STMTS[stmt]
+        call = '(%s %s)' % ('KExecute' if kind == 'execute' else 'KExecMany', STMTS[stmt])
     else:
         raise Unmodelled('DB-API call %r' % kind)
     return 'ev5 %s %d %s %s %s' % (call, con, cb(ok), cb(lock), cb(txn))
 
 
-def coq_body(ops):
-    return '[' + '; '.join('(%s, %s)' % (OPS[o[0]], cb(o[1])) for o in ops) + ']'
+LOCKING = {'forupd': lambda a: a, 'forupd_u': lambda a: a, 'forupd_c': lambda a: a}
 
 
-def coq_sessions(case):
+def model_ops(ops, outcomes=None):
+    """the model operations of a body.  Locking lookups become OGetFU cached locked, the flags coming from a replay of the
+    body's own history (which objects this cache has loaded / locked so far, given how the earlier operations ended);
+    link / unlink = the SELECT the collection makes, then the pending many-to-many change."""
+    out, loaded, locked = [], set(), set()
+    for i, o in enumerate(ops):
+        op, catch, arg = o[0], o[1], o[2]
+        res = outcomes[i] if outcomes is not None and i < len(outcomes) else 'ok'
+        if op in LOCKING:
+            out.append('(OGetFU %s %s, %s)' % (cb(arg in loaded), cb(arg in locked), cb(catch)))
+            if res == 'ok': loaded.add(arg); locked.add(arg)
+        elif op in ('link', 'unlink'):
+            if catch: raise Unmodelled('link/unlink with a caught exception')
+            out.append('(OSelect, false)'); out.append('(%s, false)' % ('OLink' if op == 'link' else 'OUnlink'))
+        else:
+            out.append('(%s, %s)' % (OPS[op], cb(catch)))
+            if op == 'load' and res == 'ok': loaded.add(arg)
+            if op == 'qforupd' and res == 'ok': loaded.add(arg); locked.add(arg)
+            if op in ('commit', 'dbcommit'):
+                if res == 'ok': locked.clear()
+                else: loaded.clear(); locked.clear()
+            if op in ('rollback', 'dbrollback'): loaded.clear(); locked.clear()
+    return out
+
+
+def coq_body(ops, outcomes=None):
+    return '[' + '; '.join(model_ops(ops, outcomes)) + ']'
+
+
+def coq_sessions(case, out=None):
     ses = [[case['shape'], case['ops']]] + list(case.get('more', []))
-    return '[' + '; '.join('(%s, %s)' % (SHAPES[sh], coq_body(ops)) for sh, ops in ses) + ']'
+    outs = [x['outcomes'] for x in out['sessions']] if out is not None else [None] * len(ses)
+    return '[' + '; '.join('(%s, %s)' % (SHAPES[sh], coq_body(ops, oc)) for (sh, ops), oc in zip(ses, outs)) + ']'
 
 
 def coq_faults(fs):
@@ -87,7 +116,7 @@ def coq_case(case, out):
     """bool: the model run on the same sessions and faults yields exactly the implementation's observation."""
     start = START[case.get('start', 'pooled')]
     return 'obs_eqb (observe (run_sessions (faults_oracle %s) %s %s)) (%s)' % (
-        coq_faults(case.get('faults', [])), coq_sessions(case), start, coq_observation(out))
+        coq_faults(case.get('faults', [])), coq_sessions(case, out), start, coq_observation(out))
 
 
 def run_bools(ctx, exprs, chunk=400, name='cases', header=HEADER):
@@ -204,6 +233,9 @@ TEMPLATES = {
         ('dbcommit', [['new', False, 1], ['dbcommit', True, 0], ['rawwrite', False, 2], ['dbrollback', True, 0], ['select', False, 0]]),
         ('getconn', [['getconn', False, 0], ['new', False, 3]]),
         ('raise', [['new', False, 5], ['flush', False, 0], ['raise', False, 0]]),
+        ('m2m-only', [['load', False, 2], ['loadu', False, 2], ['link', False, [2, 2]], ['flush', False, 0], ['select', False, 0], ['raise', False, 0]]),
+        ('m2m-mixed', [['load', False, 1], ['loadu', False, 1], ['unlink', False, [1, 1]], ['new', False, 4], ['loadu', False, 3], ['link', False, [1, 3]], ['commit', False, 0], ['select', False, 0]]),
+        ('lock-routes', [['load', False, 2], ['forupd_u', False, 2], ['forupd_c', False, 3], ['forupd', True, 3], ['forupd_u', False, 4], ['commit', False, 0], ['forupd_c', False, 2]]),
     ],
     'imm': [
         ('write', [['select', False, 0], ['new', False, 5]]),
